@@ -190,7 +190,7 @@ fn run_prog(idx: usize, line: &str) -> String {
     Ok((n, rendered)) => {
       ans.insert("check".into(), "done".into());
       ans.insert("nerr".into(), n.into());
-      let short: String = rendered.chars().take(600).collect();
+      let short: String = rendered.chars().take(3000).collect();
       ans.insert("errors".into(), short.into());
     }
     Err(e) => {
@@ -264,6 +264,72 @@ fn run_prog(idx: usize, line: &str) -> String {
   serde_json::Value::Object(ans).to_string()
 }
 
+/// `layout {"sources": {"Main": text}}`: the real front end, `perform_generics_specialization` (enum layout
+/// choice) and `compile_mir_to_lir` (type erasure) on a single module. Answer:
+/// `T3=i,u,b2;T4=b1 | probe3=any;probe4=id` (variants: i = Int31, u = Unboxed, b<n> = Boxed with n
+/// payload fields; probes: LIR type of the parameter of `Main.probe<k>(x: T<k>)`).
+fn layout_line(rest: &str) -> String {
+  let v: serde_json::Value = match serde_json::from_str(rest) {
+    Ok(v) => v,
+    Err(e) => return format!("bad-input {e}"),
+  };
+  let text = v["sources"]["Main"].as_str().unwrap_or("").to_string();
+  let r = catch_unwind(AssertUnwindSafe(|| {
+    let mut heap = Heap::new();
+    let heap = &mut heap;
+    let mut error_set = ErrorSet::new();
+    let mr = heap.alloc_module_reference_from_string_vec(vec!["Main".to_string()]);
+    let parsed = samlang_parser::parse_source_module_from_text(&text, mr, heap, &mut error_set);
+    let mut parsed_sources = HashMap::new();
+    parsed_sources.insert(mr, parsed);
+    let checked = samlang_checker::type_check_sources(&parsed_sources, &mut error_set).0;
+    if error_set.has_errors() {
+      return "rejected".to_string();
+    }
+    let hir = samlang_compiler::verif_hooks::lower_to_hir(heap, &checked);
+    let mir = samlang_compiler::verif_hooks::specialize(heap, hir);
+    let mut enums = Vec::new();
+    for d in &mir.type_definitions {
+      let n = d.name.encoded_for_test(heap, &mir.symbol_table);
+      if !n.starts_with("Main_") {
+        continue;
+      }
+      if let samlang_ast::mir::TypeDefinitionMappings::Enum(vs) = &d.mappings {
+        let kinds: Vec<String> = vs
+          .iter()
+          .map(|x| match x {
+            samlang_ast::mir::EnumTypeDefinition::Int31 => "i".to_string(),
+            samlang_ast::mir::EnumTypeDefinition::Unboxed(_) => "u".to_string(),
+            samlang_ast::mir::EnumTypeDefinition::Boxed(ts) => format!("b{}", ts.len() - 1),
+          })
+          .collect();
+        enums.push(format!("{}={}", n.trim_start_matches("Main_"), kinds.join(",")));
+      }
+    }
+    enums.sort();
+    let lir = samlang_compiler::compile_mir_to_lir(heap, mir);
+    let mut probes = Vec::new();
+    for f in &lir.functions {
+      let name = f.name.fn_name.as_str(heap).to_string();
+      if name.starts_with("probe") {
+        let mut kind = "other";
+        for t in &f.type_.argument_types {
+          match t {
+            samlang_ast::lir::Type::AnyPointer => kind = "any",
+            samlang_ast::lir::Type::Id(_) => kind = "id",
+            _ => {}
+          }
+        }
+        probes.push(format!("{name}={kind}"));
+      }
+    }
+    probes.sort();
+    probes.dedup();
+    format!("{} | {}", enums.join(";"), probes.join(";"))
+  }));
+  r.unwrap_or_else(|e| format!("panic {}", panic_msg(&e)))
+}
+
 fn main() {
   std::panic::set_hook(Box::new(|_| {}));
   let lines: Vec<String> = std::io::stdin()
@@ -280,6 +346,7 @@ fn main() {
       let (op, rest) = line.split_once(' ').unwrap_or((line.as_str(), ""));
       match op {
         "prog" => run_prog(i, rest),
+        "layout" => layout_line(rest),
         "fold" | "merge" | "trip" => {
           let t: Vec<&str> = line.split(' ').filter(|s| !s.is_empty()).collect();
           kernel(&t)
